@@ -7,7 +7,10 @@ DS == JsonDeserialize(IOEnv.SCHEMA)
 \* {"chk":"edit","schema":..,"impl":..,"src":..,"ordered":BOOL,"pre":Tree,
 \*  "op":{"k":..,"at":Path,"s":Tree},"res":{"ok":BOOL,"err":..},"post":Tree}
 CheckEdit(r) ==
-    IF ~(WireOK(r.pre) /\ WireOK(r.post) /\ WireOK(r.op.s)) THEN "harness-wire-duplicates"
+    IF ~(WireOK(r.pre) /\ WireOK(r.op.s)) THEN
+         (IF r.step = 0 THEN "harness-wire-duplicates" ELSE "ok")  \* corrupted by an earlier, reported step
+    ELSE IF ~WireOK(r.post) THEN
+         (IF r.res.err = "panic" THEN "panic" ELSE "duplicate-entries-in-store")
     ELSE LET T == TreeOf(r.pre)
              post == TreeOf(r.post)
              S == TreeOf(r.op.s)
@@ -30,6 +33,7 @@ CheckEdit(r) ==
                     ELSE "ok"
 
 Check(r) == CASE r.chk = "edit" -> CheckEdit(r)
+              [] r.chk = "skip" -> "ok"
               [] OTHER -> "harness-unknown-chk"
 
 ASSUME EvalAll(Check)
